@@ -477,7 +477,15 @@ class BuiltinsMixin(object):
             if isinstance(v, Raise):
                 out.append((p, v))
             else:
-                out.append((p, self.get_attr(v, node.attr, p, node)))
+                r = self.get_attr(v, node.attr, p, node)
+                if isinstance(v, MRef) and isinstance(r, App) and \
+                        r.op == 'attr' and v.name in self.prog.modules:
+                    # a package module without that name: AttributeError
+                    r = Raise(New(ExtClass('AttributeError'), (Const(
+                        'module %s has no attribute %s' % (v.name,
+                                                           node.attr)),)),
+                        node)
+                out.append((p, r))
         return out
 
     def class_of(self, v, path):
